@@ -2,10 +2,13 @@ package props
 
 import (
 	"context"
+	"encoding/json"
 	"errors"
 	"fmt"
 	"io"
+	"sort"
 	"strings"
+	"unsafe"
 
 	mcp "trpc.group/trpc-go/trpc-mcp-go"
 	"verif.local/engine/explore"
@@ -208,6 +211,22 @@ func c07Cases(tier string) []c07Case {
 			}
 		}
 	}
+	// the server writes the element on the channel of the answer and then falls silent, leaving that
+	// channel open: the call stays pending, but the client as a whole stays usable
+	for _, m := range c07Modes {
+		for _, e := range els {
+			switch e.Name {
+			case "sse-comment", "response-unknown-id", "notification-unknown", "non-json", "sse-blank-lines", "stdio-blank-lines":
+				if e.Only != "" && !strings.Contains(m, e.Only) {
+					continue
+				}
+				if m == "sj" && strings.HasPrefix(e.Name, "sse-") {
+					continue
+				}
+				out = append(out, c07Case{m, "stalled-answer", e, nil})
+			}
+		}
+	}
 	// legacy SSE: the endpoint event never arrives / arrives late
 	out = append(out, c07Case{"ls", "no-endpoint", c07Elem{Name: "missing-endpoint", Emit: func(w scriptWriter, mode string) { w.Raw(": hello\n\n") }}, nil})
 	return out
@@ -272,6 +291,12 @@ func c07Exec(cs c07Case, cfg vsched.Config) (CaseResult, explore.Outcome) {
 				w = &httpAnswer{s: ss, w: ss.stream, started: true, sse: true}
 			}
 			callN++
+			if callN == 1 && cs.Point == "stalled-answer" {
+				emit(w)
+				// no answer, and the channel stays open until the scenario is over
+				vsched.BlockObjs("scripted server leaves the answer channel open", ctxProbe{context.Background(), &ss.stopped}, []uintptr{uintptr(unsafe.Pointer(&ss.stopped))}, true)
+				return true
+			}
 			if callN == 1 {
 				switch cs.Point {
 				case "before-answer":
@@ -373,6 +398,50 @@ func c07Exec(cs c07Case, cfg vsched.Config) (CaseResult, explore.Outcome) {
 			vsched.Quiesce()
 			return TextOf(out), err, done.Get()
 		}
+		if cs.Point == "stalled-answer" {
+			var err1 error
+			done1 := &hx.Flag{}
+			vsched.Go("caller-1", func() {
+				rq := &mcp.CallToolRequest{}
+				rq.Params.Name = "t"
+				_, err1 = cl.CallTool(context.Background(), rq)
+				done1.Set()
+			})
+			vsched.Quiesce()
+			obs.Add("call1-done=%v", done1.Get())
+			// the rest of the client's API does not wait for the stalled call
+			regDone := &hx.Flag{}
+			vsched.Go("register", func() {
+				cl.RegisterNotificationHandler("notifications/other", func(n *mcp.JSONRPCNotification) error { return nil })
+				cl.UnregisterNotificationHandler("notifications/other")
+				regDone.Set()
+			})
+			vsched.Quiesce()
+			if !regDone.Get() {
+				viol = append(viol, V(k("register-hangs"), "while a call waits on a silent answer channel, RegisterNotificationHandler / UnregisterNotificationHandler do not return; blocked: %v", vsched.LiveThreads()))
+			}
+			if cs.Mode == "sj" || cs.Mode == "ss" { // every call has an answer channel of its own
+				txt2, err2, done2 := call("2")
+				if !done2 {
+					viol = append(viol, V(k("later-call-hangs"), "while a call waits on a silent answer channel, another call on the same client never returns; blocked: %v", vsched.LiveThreads()))
+				} else if err2 != nil || txt2 != "second" {
+					viol = append(viol, V(k("later-call-fails"), "while a call waits on a silent answer channel, another well-formed exchange on the same client failed: %q %v", txt2, err2))
+				}
+			}
+			closed := &hx.Flag{}
+			vsched.Go("close", func() { cl.Close(); closed.Set() })
+			vsched.Quiesce()
+			if !closed.Get() {
+				viol = append(viol, V(k("close-hangs"), "Close did not return while a call waits on a silent answer channel; blocked: %v", vsched.LiveThreads()))
+			}
+			ss.stop()
+			vsched.Quiesce()
+			if closed.Get() && !done1.Get() {
+				viol = append(viol, V(k("call-survives-close"), "the client is closed and the server has ended the channel, the pending call still has not returned; blocked: %v", vsched.LiveThreads()))
+			}
+			_ = err1
+			return
+		}
 		txt, err1, done1 := call("1")
 		switch {
 		case !done1:
@@ -457,6 +526,7 @@ func init() {
 		c.Rule = "complete enumeration of (client mode) x (insertion point: during handshake, before the answer, after the answer, on the idle background stream, HTTP-level answer, and for legacy SSE in the same burst as the endpoint event, before or after it - the latter also explored over schedules with P<=2) x (adversarial element alphabet: garbage, non-JSON, every JSON type, wrong-kind frames, ids of every type, SSE/stdio framing oddities, 64KiB+1 frame); thorough adds all pairs of elements; oracle: no panic, no spin (step horizon), the affected call returns, a later call succeeds, later frames on the background stream are delivered, Close returns"
 		c.Assume = append(c.Assume, "byte-level space covered as a structured alphabet, not arbitrary byte strings (fuzzing is out of family)", "virtual time; spin = more than 60000 scheduling points in one execution", "default schedule (C08 covers schedules of faults)")
 		c.Enumerate("c07/adversarial")
+		c.Enumerate("c07/result-shapes")
 		for _, bc := range c07BurstCases() {
 			c.DFS("c07/ls/connect-burst/"+bc.Elem.Name, explore.Bounds{Preempt: c.Pick(2, 3), Dev: 0, POR: true, MaxExec: c.Pick(3000, 100000)})
 		}
@@ -470,4 +540,205 @@ func init() {
 				return o
 			}})
 	}
+}
+
+// ---- results of every shape ------------------------------------------------------------------------
+//
+// "No response body ... makes a client panic": the answer is a well-formed JSON-RPC response whose
+// result is a structural mutation of a valid result of the operation - every node replaced by null,
+// a value of every other JSON type, an array holding null, and every object key removed. The
+// decoders of the typed results (tools, prompts, resources, contents) run in the caller's goroutine.
+
+var c07ResultOps = []struct {
+	Op, Method, Valid string
+}{
+	{"ListTools", "tools/list", `{"tools":[{"name":"t","description":"d","inputSchema":{"type":"object","properties":{"a":{"type":"string"}},"required":["a"]},"annotations":{"title":"T","readOnlyHint":true}}],"nextCursor":"c"}`},
+	{"CallTool", "tools/call", `{"content":[{"type":"text","text":"x","annotations":{"audience":["user"],"priority":0.5}},{"type":"image","data":"aGk=","mimeType":"image/png"},{"type":"audio","data":"aGk=","mimeType":"audio/wav"},{"type":"resource","resource":{"uri":"res://r","mimeType":"text/plain","text":"t"}}],"isError":false,"structuredContent":{"k":1}}`},
+	{"ListPrompts", "prompts/list", `{"prompts":[{"name":"p","description":"d","arguments":[{"name":"a","description":"d","required":true}]}],"nextCursor":"c"}`},
+	{"GetPrompt", "prompts/get", `{"description":"d","messages":[{"role":"user","content":{"type":"text","text":"x"}},{"role":"assistant","content":{"type":"resource","resource":{"uri":"res://r","text":"t"}}}]}`},
+	{"ListResources", "resources/list", `{"resources":[{"uri":"res://r","name":"r","description":"d","mimeType":"text/plain","annotations":{"audience":["user"],"priority":1}}],"nextCursor":"c"}`},
+	{"ReadResource", "resources/read", `{"contents":[{"uri":"res://r","mimeType":"text/plain","text":"x"},{"uri":"res://b","mimeType":"application/octet-stream","blob":"aGk="}]}`},
+}
+
+// c07Mutations returns the structural mutations of a JSON document (as JSON texts, with a label).
+func c07Mutations(doc string) (labels []string, texts []string) {
+	var root interface{}
+	json.Unmarshal([]byte(doc), &root)
+	repl := []string{`null`, `true`, `7`, `"s"`, `[]`, `{}`, `[null]`, `[[]]`, `{"type":null}`}
+	type setter func(v interface{})
+	emit := func(label string) {
+		b, _ := json.Marshal(root)
+		labels = append(labels, label)
+		texts = append(texts, string(b))
+	}
+	var walk func(path string, cur interface{}, set setter)
+	walk = func(path string, cur interface{}, set setter) {
+		orig := cur
+		for _, r := range repl {
+			var v interface{}
+			json.Unmarshal([]byte(r), &v)
+			set(v)
+			emit(path + ":=" + r)
+		}
+		set(orig)
+		switch t := cur.(type) {
+		case map[string]interface{}:
+			keys := make([]string, 0, len(t))
+			for k := range t {
+				keys = append(keys, k)
+			}
+			sort.Strings(keys)
+			for _, k := range keys {
+				k := k
+				save := t[k]
+				delete(t, k)
+				emit(path + "." + k + " removed")
+				t[k] = save
+				walk(path+"."+k, save, func(v interface{}) { t[k] = v })
+			}
+		case []interface{}:
+			for i := range t {
+				i := i
+				walk(fmt.Sprintf("%s[%d]", path, i), t[i], func(v interface{}) { t[i] = v })
+			}
+		}
+	}
+	walk("result", root, func(v interface{}) { root = v })
+	return
+}
+
+type c07ShapeCase struct {
+	Mode  string
+	Op    int
+	Label string
+	Text  string
+}
+
+var c07ShapeCache []c07ShapeCase
+
+func c07ShapeCases() []c07ShapeCase {
+	if c07ShapeCache != nil {
+		return c07ShapeCache
+	}
+	var out []c07ShapeCase
+	for oi, op := range c07ResultOps {
+		ls, ts := c07Mutations(op.Valid)
+		for _, m := range c07Modes {
+			for i := range ls {
+				out = append(out, c07ShapeCase{m, oi, ls[i], ts[i]})
+			}
+		}
+	}
+	c07ShapeCache = out
+	return out
+}
+
+func c07ShapeEval(cs c07ShapeCase) CaseResult {
+	op := c07ResultOps[cs.Op]
+	cr := CaseResult{Desc: fmt.Sprintf("mode=%s %s answered with %s", cs.Mode, op.Op, cs.Label), Nontrivial: true}
+	var viol []explore.Violation
+	obs := &hx.Log{}
+	k := func(kind string) string { return fmt.Sprintf("%s:%s:%s", kind, op.Op, cs.Label) }
+	res := vsched.Run(vsched.Config{MaxSteps: 60000}, func() {
+		ss := newScriptedServer(cs.Mode)
+		ss.onRequest = func(msg map[string]interface{}, rawMsg string, w scriptWriter) bool {
+			method, _ := msg["method"].(string)
+			id := rawID([]byte(rawMsg))
+			if id == "" || method == "initialize" {
+				return false
+			}
+			if cs.Mode == "ls" {
+				w.HTTP(202, "", "")
+				w = &httpAnswer{s: ss, w: ss.stream, started: true, sse: true}
+			}
+			if method == op.Method {
+				w.Frame(fmt.Sprintf(`{"jsonrpc":"2.0","id":%s,"result":%s}`, id, cs.Text))
+			} else {
+				w.Frame(fmt.Sprintf(`{"jsonrpc":"2.0","id":%s,"result":{"content":[{"type":"text","text":"fine"}]}}`, id))
+			}
+			return true
+		}
+		cl, err := ss.connect()
+		if err != nil {
+			viol = append(viol, V("setup-handshake-fails", "setting the scenario up with well-behaved peers fails: %v", err))
+			return
+		}
+		done := &hx.Flag{}
+		var cerr error
+		vsched.Go("caller", func() {
+			ctx := context.Background()
+			switch op.Op {
+			case "ListTools":
+				_, cerr = cl.ListTools(ctx, &mcp.ListToolsRequest{})
+			case "CallTool":
+				rq := &mcp.CallToolRequest{}
+				rq.Params.Name = "t"
+				_, cerr = cl.CallTool(ctx, rq)
+			case "ListPrompts":
+				_, cerr = cl.ListPrompts(ctx, &mcp.ListPromptsRequest{})
+			case "GetPrompt":
+				rq := &mcp.GetPromptRequest{}
+				rq.Params.Name = "p"
+				_, cerr = cl.GetPrompt(ctx, rq)
+			case "ListResources":
+				_, cerr = cl.ListResources(ctx, &mcp.ListResourcesRequest{})
+			case "ReadResource":
+				rq := &mcp.ReadResourceRequest{}
+				rq.Params.URI = "res://r"
+				_, cerr = cl.ReadResource(ctx, rq)
+			}
+			done.Set()
+		})
+		vsched.Quiesce()
+		if !done.Get() {
+			viol = append(viol, V(k("shape-call-hangs"), "%s never returned; blocked: %v", op.Op, vsched.LiveThreads()))
+		}
+		obs.Add("err=%v", cerr != nil)
+		// a later well-formed exchange
+		var out *mcp.CallToolResult
+		var e2 error
+		d2 := &hx.Flag{}
+		vsched.Go("caller-2", func() {
+			rq := &mcp.CallToolRequest{}
+			rq.Params.Name = "other"
+			if op.Op == "CallTool" {
+				// tools/call is the mutated one: use another operation as the later exchange
+				_, e2 = cl.ListPrompts(context.Background(), &mcp.ListPromptsRequest{})
+				out = mcp.NewTextResult("fine")
+			} else {
+				out, e2 = cl.CallTool(context.Background(), rq)
+			}
+			d2.Set()
+		})
+		vsched.Quiesce()
+		switch {
+		case !d2.Get():
+			viol = append(viol, V(k("shape-later-call-hangs"), "after %s was answered with %s a later call never returned; blocked: %v", op.Op, cs.Label, vsched.LiveThreads()))
+		case op.Op != "CallTool" && (e2 != nil || TextOf(out) != "fine"):
+			viol = append(viol, V(k("shape-later-call-fails"), "after %s was answered with %s a later well-formed exchange failed: %v", op.Op, cs.Label, e2))
+		}
+		closed := &hx.Flag{}
+		vsched.Go("close", func() { cl.Close(); closed.Set() })
+		vsched.Quiesce()
+		if !closed.Get() {
+			viol = append(viol, V(k("shape-close-hangs"), "Close did not return; blocked: %v", vsched.LiveThreads()))
+		}
+		ss.stop()
+	})
+	o := finishOutcome(res, obs, viol, true)
+	for i, v := range o.Violations {
+		if strings.HasPrefix(v.Key, "panic:") {
+			o.Violations[i].Msg = fmt.Sprintf("%s answered with %s: %s", op.Op, cs.Label, v.Msg)
+		}
+	}
+	cr.ObsKey = cr.Desc + "|" + o.ObsKey
+	cr.Violations = o.Violations
+	cr.Broken = o.Broken
+	return cr
+}
+
+func init() {
+	RegisterEnum(&Enum{Name: "c07/result-shapes", Doc: "well-formed responses whose result is a structural mutation of a valid result (every node := null / each other JSON type / [null] / [[]], every key removed) for ListTools, CallTool, ListPrompts, GetPrompt, ListResources, ReadResource on 4 client flavours: no panic in the typed decoders, the call returns, a later exchange works, Close returns",
+		Count: func(string) int { return len(c07ShapeCases()) },
+		Eval:  func(tier string, i int) CaseResult { return c07ShapeEval(c07ShapeCases()[i]) }})
 }
